@@ -37,9 +37,9 @@ manifest = dict(
         add_only=True,
     ),
     engines=[
-        dict(name="codec", path="/verif/harness/codec", serves_properties=[p for p in PROP_ORDER if p in META and META[p]["engine"] == "codec"], kind_free_text="rapid property tests + bounded-exhaustive enumerations + native fuzz targets over the public codec API, with an independent reference codec as oracle"),
-        dict(name="net", path="/verif/harness/net", serves_properties=[p for p in PROP_ORDER if p in META and META[p]["engine"] == "net"], kind_free_text="rapid-generated scripts over real mpx/rpc clients and servers on loopback, raw wire-level peer, fault-injecting TCP proxy, flow-control reference model"),
-        dict(name="lang", path="/verif/harness/lang", serves_properties=[p for p in PROP_ORDER if p in META and META[p]["engine"] == "lang"], kind_free_text="grammar-directed schema generator, mutation operators, real cmd/spec binary + go build of its output, emitted rapid drivers"),
+        dict(name="codec", path="/verif/harness/codec", serves_properties=[p for p in PROP_ORDER if p in META and "codec" in META[p]["engine"]], kind_free_text="rapid property tests + bounded-exhaustive enumerations + native fuzz targets over the public codec API, with an independent reference codec as oracle"),
+        dict(name="net", path="/verif/harness/net", serves_properties=[p for p in PROP_ORDER if p in META and "net" in META[p]["engine"]], kind_free_text="rapid-generated scripts over real mpx/rpc clients and servers on loopback, raw wire-level peer, fault-injecting TCP proxy, flow-control reference model"),
+        dict(name="lang", path="/verif/harness/lang", serves_properties=[p for p in PROP_ORDER if p in META and "lang" in META[p]["engine"]], kind_free_text="grammar-directed schema generator, mutation operators, real cmd/spec binary + go build of its output, emitted rapid drivers"),
     ],
     checks=checks,
     notes="Technique family: property-based testing and fuzzing only (pgregory.net/rapid v1.3.0, native go fuzzing in thorough tiers). Driver: /verif/check; exit 0/1/2 as described in DESIGN.md 1.3. Known findings: /verif/KNOWN_FINDINGS.txt.",
